@@ -217,6 +217,14 @@ def canon_val(v):
     return 'o:' + repr(v)
 
 
+def _safe(fn):
+    """ an accessor that raises is an observation, not a harness failure """
+    try:
+        return fn()
+    except Exception as e:  # pylint: disable=broad-except
+        return '!raised:' + type(e).__name__
+
+
 def observe_result(r, K, def_index, secmap):
     """ canonical observation of one result through its public accessors """
     sec = r.section_id
@@ -224,19 +232,21 @@ def observe_result(r, K, def_index, secmap):
         if sec not in secmap:
             secmap[sec] = len(secmap)
         sec = secmap[sec]
-    seq = r.sequence_id
+    seq = _safe(lambda: r.sequence_id)
     byname = {}
     for nm in (r.field_names or []):
         try:
             a = canon_val(getattr(r, nm))
         except AttributeError:
             a = '!noattr'
-        byname[nm] = [canon_val(r.get(nm)), a]
-    return {'ln': r.linenumber, 'tag': r.tag,
+        except Exception as e:  # pylint: disable=broad-except
+            a = '!raised:' + type(e).__name__
+        byname[nm] = [_safe(lambda nm=nm: canon_val(r.get(nm))), a]
+    return {'ln': r.linenumber, 'tag': _safe(lambda: r.tag),
             'seq': def_index.get(seq, '?') if seq is not None else None,
             'sec': sec,
-            'iter': [canon_val(v) for v in r],
-            'byidx': [canon_val(r.get(i)) for i in range(K + 1)],
+            'iter': _safe(lambda: [canon_val(v) for v in r]),
+            'byidx': [_safe(lambda i=i: canon_val(r.get(i))) for i in range(K + 1)],
             'byname': byname}
 
 
@@ -271,6 +281,13 @@ def run_searcher(built, fs, K):
         return {'err': f'hang(>{limit}s)'}
     except Exception as e:  # pylint: disable=broad-except
         return {'err': classify_exc(e)}
+    try:
+        return _observe_run(built, fs, results, K)
+    except Exception as e:  # pylint: disable=broad-except
+        return {'err': 'accessor-raised:' + type(e).__name__}
+
+
+def _observe_run(built, fs, results, K):
     st = fs.stats
     sections = {}
     for d in built.scn['defs']:
